@@ -9,15 +9,17 @@ def mig_name(n):
     return '0001_initial' if n == 1 else '%04d_m%d' % (n, n - 1)
 
 
-def models_src(cols):
+def models_src(cols, with_tag=False):
     out = ['from django.db import models', '', '', 'class Item(models.Model):',
            '    name = models.CharField(max_length=20)']
     for c in cols:
         out.append('    %s = models.IntegerField(null=True)' % c)
+    if with_tag:
+        out += ['', '', 'class Tag(models.Model):', '    title = models.CharField(max_length=15)']
     return '\n'.join(out) + '\n'
 
 
-def mig_initial(app, cols):
+def mig_initial(app, cols, with_tag=False):
     fl = ("('id', models.AutoField(auto_created=True, primary_key=True, serialize=False, "
           "verbose_name='ID')), ('name', models.CharField(max_length=20))")
     for c in cols:
@@ -28,8 +30,10 @@ def mig_initial(app, cols):
 class Migration(migrations.Migration):
     initial = True
     dependencies = []
-    operations = [migrations.CreateModel(name='Item', fields=[%s])]
-''' % fl
+    operations = [migrations.CreateModel(name='Item', fields=[%s])%s]
+''' % (fl, (", migrations.CreateModel(name='Tag', fields=[('id', models.AutoField(auto_created=True, "
+                "primary_key=True, serialize=False, verbose_name='ID')), ('title', models.CharField(max_length=15))])")
+               if with_tag else '')
 
 
 def mig_add(app, prev, col):
@@ -43,7 +47,7 @@ class Migration(migrations.Migration):
 ''' % (app, prev, col)
 
 
-def shop_version(K, S, nevo, with_move, nmig, move_sql=False, declares=False):
+def shop_version(K, S, nevo, with_move, nmig, move_sql=False, declares=False, new_model=False):
     """(models source, evolutions, migrations) of shop with the first `nevo` pre-move
     evolutions, optionally the move, and a chain of `nmig` migrations."""
     pre = [('e%d' % i, ["AddField('Item', 'c%d', models.IntegerField, null=True)" % i], ['c%d' % i])
@@ -64,12 +68,12 @@ def shop_version(K, S, nevo, with_move, nmig, move_sql=False, declares=False):
             move['deps'] = {'AFTER_MIGRATIONS': [('mig', mig_name(2))]}
         evos.append(move)
         extra = ['x'] if move_sql else []
-        migs = [(mig_name(1), mig_initial('shop', ['c%d' % i for i in range(1, K + 1)] + extra))]
+        migs = [(mig_name(1), mig_initial('shop', ['c%d' % i for i in range(1, K + 1)] + extra, new_model))]
         for n in range(2, nmig + 1):
             migs.append((mig_name(n), mig_add('shop', mig_name(n - 1), 'm%d' % (n - 1))))
         cols = sorted(set(['c%d' % i for i in range(1, K + 1)] + ['m%d' % (n - 1) for n in range(2, nmig + 1)]
                           + cols + extra))
-    return models_src(cols), evos, migs, len(pre)
+    return models_src(cols, with_tag=bool(with_move and new_model)), evos, migs, len(pre)
 
 
 def deploy_companions(project, companions, final):
@@ -104,6 +108,7 @@ def observe(res, app='shop'):
         'evo_recorded': sorted(e[1] for e in book['evolutions'] if e[0] == app),
         'mig_rows': migrows,
         'columns': cols,
+        'tag_table': bool(post['db'] and ('%s_tag' % app) in post['db']['tables']),
         'sig_method': sig.get('upgrade_method'),
         'sig_applied': sorted(sig.get('applied_migrations') or []),
         'statements': [e['sql'][:80] for e in res['events'] if e['ev'] == 'stmt'],
@@ -180,7 +185,8 @@ def replay(cfg, idx=0, M=3):
             out['start_obs'] = observe(r)
         # --- the version under test
         P = K + (1 if S > 1 else 0)
-        src, evos, migs, _p = shop_version(K, S, P, True, M, bool(cfg.get('moveSql')), bool(cfg.get('declares')))
+        src, evos, migs, _p = shop_version(K, S, P, True, M, bool(cfg.get('moveSql')), bool(cfg.get('declares')),
+                                           bool(cfg.get('newModel')))
         project.deploy('shop', src, evos, migrations=migs)
         deploy_companions(project, companions, final=True)
         driver = ('cmd', 'api', 'migrate')[idx % 3]
